@@ -41,6 +41,7 @@ def run(chk):
     cells += long_cells
     # accented letters the kern lexer knows (NON_ENGLISH: page names of bounding boxes, tails the recogniser ignores) and some it does not
     cells += ['*xywh-p\u00e1gina1:10,20,30,40', '*xywh-\u00f1:1,2,3,4', '*xywh-se\u00e7\u00e3o:5,6,7,8', '*xywh-\u00dcber:1,2,3,4', '=2\u00f1', '=\u00e9', '==\u00fa',
+              '=\uff11\uff12', '=\u0663', '=\u00b2', '=1\u0662', '*M\uff13/4', '4\uff43', '*clefG\uff12', '.\u3002', '\uff0e', '=\u0967',     # digits / letters / dots that only LOOK like kern
               '*clefG2\u00e1', '4c\u00e9', '*\u00f1', '\u00e1', 'can-\u00e7\u00f3', '*M3/4\u00f2']
     # damaged tokens: every proper prefix and every single-character deletion of the grammar's alternatives (a truncated
     # bounding box, a clef without its line ...) - the recogniser recovers from such cells in ways of its own
